@@ -1026,6 +1026,8 @@ func c13Surroundings(c *Check) {
 	}
 	c05ADPerServer(c, "R5d") // DANE believes TLSA / address answers exactly as far as their AD bit goes
 	c13NoTruncatedAnswer(c, "R5e")
+	c13WholeRRset(c, "R5f")
+	c13RetryKeepsServerName(c, "R8")
 	c.Rule("R5c", "extended resolver: an AuthenticatedData flag read inside a loop over the answers of a response belongs to that same response", 2)
 	pk := p.Pkg("framework/dns")
 	if pk == nil {
